@@ -27,6 +27,15 @@ def _answer(req):
             return ["ok", mg.smiles, round(float(mg.weight), 6)]
         except Exception as exc:  # noqa: BLE001
             return ["raise", type(exc).__name__]
+    if op == "mirror_gen":
+        try:
+            mir = obj.gen_mirror()
+            if mir is None:
+                return ["none"]
+            mg = mir.generate(rng=np.random.default_rng(req["k"]))
+            return ["ok", mg.smiles, round(float(mg.weight), 6)]
+        except Exception as exc:  # noqa: BLE001
+            return ["raise", type(exc).__name__]
     if op == "ens":
         try:
             from .probe import system_generator
